@@ -79,7 +79,12 @@ def track_query(t, twin, acts):
             apply_track(other, a, k)
         except Exception:
             pass
-    other.add_notes(NoteContainer([Note("A", 4)]), 8)
+    if len(acts) % 2 == 1:
+        # a track that differs from t only by one more, empty, bar
+        from mingus.containers import Bar as _Bar
+        other.add_bar(_Bar())
+    else:
+        other.add_notes(NoteContainer([Note("A", 4)]), 8)
     it = []
     for beat, dur, notes in t.get_notes():
         from .values import beat_ticks, value_ticks
